@@ -11,6 +11,7 @@ import (
 	"fmt"
 	"io"
 	"net"
+	"strings"
 	"sync/atomic"
 	"time"
 
@@ -29,6 +30,7 @@ func handoffCmd(args []string) int {
 	fs := flag.NewFlagSet("handoff", flag.ExitOnError)
 	out := fs.String("out", "handoff.ndjson", "trace output")
 	rounds := fs.Int("rounds", 2, "rounds over the accept paths")
+	pathsF := fs.String("paths", "tcp-group,tcpmux-group,vhost-https,vhost-tcpmux", "accept paths")
 	fs.Parse(args)
 	env.QuietLogs()
 	sink, err := trace.Open(*out)
@@ -40,7 +42,7 @@ func handoffCmd(args []string) int {
 	sched.SetFilter(func(p string) bool { return p == "group.handoff" || p == "vhost.handoff" })
 	n := 0
 	for round := 0; round < *rounds; round++ {
-		for _, path := range []string{"tcp-group", "tcpmux-group", "vhost-https", "vhost-tcpmux"} {
+		for _, path := range strings.Split(*pathsF, ",") {
 			n++
 			sink.Reset("scenario", "handoff", "path", path)
 			httpsPort, muxPort, tcpPort := 0, 0, tnPort()
